@@ -29,7 +29,7 @@ def known_findings(pid):
 
 
 def write_replay(pid, name, payload):
-    d = os.path.join(VERIF, 'replays', pid)
+    d = os.path.join(os.environ.get('PV_REPLAY_DIR') or os.path.join(VERIF, 'replays'), pid)
     os.makedirs(d, exist_ok=True)
     h = hashlib.sha256(json.dumps(payload, sort_keys=True, default=repr).encode()).hexdigest()[:10]
     safe = re.sub(r'[^A-Za-z0-9_.-]+', '_', name)[:100]
@@ -187,8 +187,9 @@ def run_property(pid, tier, seed, write_baseline=False):
     }
     ev = {'property_id': pid, 'tier': tier, 'seed': seed, 'level': level, 'coverage': cov,
           'assumptions': res.assumptions, 'wall_s': round(time.time() - t0, 2), 'violations': violations}
-    os.makedirs(os.path.join(VERIF, 'evidence'), exist_ok=True)
-    with open(os.path.join(VERIF, 'evidence', f'{pid}.json'), 'w') as f:
+    evdir = os.environ.get('PV_EVIDENCE_DIR') or os.path.join(VERIF, 'evidence')    # selftest runs write elsewhere
+    os.makedirs(evdir, exist_ok=True)
+    with open(os.path.join(evdir, f'{pid}.json'), 'w') as f:
         json.dump(jsonable(ev), f, indent=1)
 
     if write_baseline:
